@@ -156,6 +156,47 @@ pub fn follower_read(s: &mut Src, sh: &Shape) {
     forget(r);
 }
 
+/// Two different reads pending (A local, B forwarded by 3); a quorum acknowledges A only:
+/// A is released, B must stay pending (it was registered after the heartbeat round the
+/// acknowledgement belongs to); a quorum on B then answers B to its requester.
+pub fn read_two_pending(s: &mut Src, sh: &Shape) {
+    let (mut r, g) = mk_raft(s, sh);
+    let term0 = r.term;
+    let commit0 = g.committed;
+    let res = r.step(read_msg(0, 7));
+    assert!(res.is_ok());
+    r.msgs.clear();
+    let res = r.step(read_msg(3, 8));
+    assert!(res.is_ok());
+    r.msgs.clear();
+    assert!(r.pending_read_count() == 2);
+    let res = r.step(hb_resp(2, term0, Some(7)));
+    assert!(res.is_ok());
+    assert!(r.read_states.len() == 1 && r.read_states[0].index == commit0 && r.read_states[0].request_ctx[0] == 7);
+    assert!(r.pending_read_count() == 1, "a read registered after the acknowledged heartbeat round was released with it");
+    let mut k = 0;
+    while k < r.msgs.len() {
+        assert!(r.msgs[k].get_msg_type() != MessageType::MsgReadIndexResp, "later read answered by the acknowledgement of an earlier round");
+        k += 1;
+    }
+    r.msgs.clear();
+    let res = r.step(hb_resp(2, term0, Some(8)));
+    assert!(res.is_ok());
+    assert!(r.pending_read_count() == 0 && r.read_states.len() == 1);
+    let mut resp = 0;
+    k = 0;
+    while k < r.msgs.len() {
+        if r.msgs[k].get_msg_type() == MessageType::MsgReadIndexResp {
+            resp += 1;
+            assert!(r.msgs[k].to == 3 && r.msgs[k].index == commit0 && r.msgs[k].entries[0].data[0] == 8);
+        }
+        k += 1;
+    }
+    assert!(resp == 1);
+    crate::macros::reached_end();
+    forget(r);
+}
+
 /// Duplicate read contexts: A, B, A again while A is pending (the duplicate must be ignored),
 /// both served by one quorum round on B, then a fresh read C is served too (no leftover entry
 /// in the queue without a pending record - that would trip an internal check).
